@@ -47,7 +47,11 @@ def _find_fn(toks, lo, hi, name):
             depth += 1
         elif k == 'p' and t in rtok.CLOSE:
             depth -= 1
-        elif depth == 0 and k == 'id' and t == 'fn' and i + 1 < hi and toks[i + 1] == ('id', name):
+        elif depth == 0 and k == 'id' and t == 'fn' and i + 1 < hi and (
+                toks[i + 1] == ('id', name)
+                # rule E3e: `fn $method` inside a macro_rules! arm, locator `... :: $method` (the metavariable is then
+                # substituted by msubst= / minvoke= like any other)
+                or (name.startswith('$') and toks[i + 1] == ('p', '$') and i + 2 < hi and toks[i + 2] == ('id', name[1:]))):
             # span start: walk back over qualifiers, `pub(crate)` etc.
             s = i
             while s > lo:
